@@ -146,6 +146,22 @@ class C10(Check):
 
     THRS = [[1, 2], [1, 4], [3, 4], [1, 10], [3, 5], [9, 10]]
 
+    def translate(self):
+        """default thresholds of the two is-overlapping functions (used inside is_below / is_next_to)"""
+        from harness import translate as tr
+        rel = 'pagexml/model/pagexml_document_model.py'
+        h = tr.as_fraction(tr.func_defaults(rel, 'is_horizontally_overlapping')['threshold'])
+        v = tr.as_fraction(tr.func_defaults(rel, 'is_vertically_overlapping')['threshold'])
+        body = tr.HEADER.format(src=rel + ': default `threshold` of is_horizontally_overlapping / '
+                                'is_vertically_overlapping') + (
+            'namespace Pagexml.Generated.C10\n\n'
+            '/-- default threshold (p, q) of is_horizontally_overlapping: used by is_below -/\n'
+            f'def hOverlapThr : Int × Int := ({h.numerator}, {h.denominator})\n\n'
+            '/-- default threshold (p, q) of is_vertically_overlapping: used by is_next_to -/\n'
+            f'def vOverlapThr : Int × Int := ({v.numerator}, {v.denominator})\n\n'
+            'end Pagexml.Generated.C10\n')
+        return {'PagexmlModel/Generated/C10.lean': body}
+
     def _mk(self, a, b, rng, tags):
         thr = rng.choice(self.THRS)
         thr2 = rng.choice([t for t in self.THRS if t[0] * thr[1] >= thr[0] * t[1]])  # thr2 >= thr
@@ -163,6 +179,16 @@ class C10(Check):
         out.append(self._mk(reg(None), reg([0, 0, 5, 5]), rng, ['corpus', 'no-coords']))
         out.append(self._mk(reg([0, 0, 5, 5]), reg(None), rng, ['corpus', 'no-coords']))
         out.append(self._mk(reg([3, 3, 3, 3]), reg([3, 3, 3, 3]), rng, ['corpus', 'point']))
+        # overlap-ratio sweep: every ratio k/H around the thresholds, both orientations, placed so that
+        # is_below / is_next_to depend on the is-overlapping answer
+        for H in ((10, 20) if tier == 'quick' else (7, 10, 20, 50)):
+            for ov in range(0, H + 2):
+                a_v = [100, 0, 150, H]
+                b_v = [0, H - ov + 1, 90, 2 * H - ov + 1]
+                out.append(self._mk(reg(a_v), reg(b_v), rng, ['ratio-sweep']))
+                a_h = [0, 100, H, 150]
+                b_h = [H - ov + 1, 0, 2 * H - ov + 1, 90]
+                out.append(self._mk(reg(a_h), reg(b_h), rng, ['ratio-sweep']))
         # exhaustive lattice of box pairs (degenerate boxes included)
         n = 3 if tier == 'quick' else 4
         boxes = [[l, t, r, b] for l in range(n) for r in range(l, n) for t in range(n) for b in range(t, n)]
